@@ -57,19 +57,25 @@ def mutants(valid):
 def impl(case):
     from cardutil import card
     s = case['s']
+    # the functions are called positionally or by their documented parameter name, in turn (by the content of the case)
+    import zlib
+    kw = bool(zlib.crc32(s.encode('utf8', 'replace')) & 1)
+    calc = (lambda x: card.calculate_check_digit(card_number=x)) if kw else card.calculate_check_digit
+    add = (lambda x: card.add_check_digit(card_number=x)) if kw else card.add_check_digit
+    val = (lambda x: card.validate_check_digit(card_number=x)) if kw else card.validate_check_digit
     if case['kind'] == 'calc':
-        return {'calc': outcome(lambda: card.calculate_check_digit(s), hs)}
+        return {'calc': outcome(lambda: calc(s), hs)}
     if case['kind'] == 'append':
-        full = outcome(lambda: card.add_check_digit(s), hs)
+        full = outcome(lambda: add(s), hs)
         r = {'add': full}
         if full.startswith('OK '):
-            r['validate'] = outcome(lambda: card.validate_check_digit(unhs(full[3:])), lambda _: '-')
+            r['validate'] = outcome(lambda: val(unhs(full[3:])), lambda _: '-')
         return r
     if case['kind'] == 'mutate':
-        valid = card.add_check_digit(s)
-        r = {'valid': hs(valid), 'validate': outcome(lambda: card.validate_check_digit(valid), lambda _: '-'), 'mut': []}
+        valid = add(s)
+        r = {'valid': hs(valid), 'validate': outcome(lambda: val(valid), lambda _: '-'), 'mut': []}
         for m in mutants(valid):
-            r['mut'].append(outcome(lambda: card.validate_check_digit(m), lambda _: '-'))
+            r['mut'].append(outcome(lambda: val(m), lambda _: '-'))
         return r
     raise ValueError(case['kind'])
 
